@@ -432,6 +432,14 @@ func runC06(r *Run) {
 	for _, rec := range encCorpus("color", prof) {
 		one(rec, "corpus")
 	}
+	withNastyPathMapping(func() {
+		for i, rec := range encCorpus("color", prof) {
+			if i%7 == 0 {
+				rec.Cfg.Caller = true
+				one(rec, "corpus-caller-path")
+			}
+		}
+	})
 	for i := r.N(500, 10000); i > 0; i-- {
 		pp := prof
 		if r.Thorough() && r.R.Chance(30) {
